@@ -30,7 +30,10 @@ def render_tokens(toks, rng, newline=False, info=None):
             else:
                 a = rng.randint(1, 30)
                 if tk["multi"]:
-                    if rng.random() < 0.5:
+                    r_ = rng.random()
+                    if r_ < 0.15:
+                        nums, conns = [a + rng.randint(1, 2), a], ["THRU"]       # a range written backwards
+                    elif r_ < 0.5:
                         nums, conns = [a, a + rng.randint(1, 2)], ["THRU"]
                     else:
                         nums, conns = [a, rng.randint(1, 36)], ["AND"]
